@@ -258,7 +258,8 @@ func (o *Obligation) SMT(withModel bool, forCVC5 bool) string {
 				}
 			}
 		}
-		if usesVested {
+		// `opaque cvaVested` in a contract: the schedule function stays uninterpreted (its bounds then come from lemmas only)
+		if usesVested && !o.Opaque["cvaVested"] {
 			for _, a := range vapps {
 				all = append(all, Eq(a, vestedAmountDef(a.Args[0], a.Args[1], a.Args[2], a.Args[3])))
 				hyps = append(hyps, all[len(all)-1])
